@@ -11,6 +11,8 @@ From Lib Require Import SyncSkel LTS.
 From Model Require Import C08_AnnounceQueue.
 From Gen Require Import Gen_Sync_dagsync.
 From Proofs Require Import C08_Locks C08_AnnounceQueue C08_Hooks C08_Tie.
+From Model Require Compose_C08_C01.
+From Proofs Require Compose_C08_C01.
 Import ListNotations.
 
 (* ---- the tie to the source, re-checked against the regenerated skeletons ---- *)
@@ -206,3 +208,95 @@ Theorem each_ad_reported_once_mixed_refuted :
     ~ Permutation (ads_of 0 (hooks s)) (seq 1 (latest s 0)).
 Proof. exact each_ad_reported_once_mixed_refuted. Qed.
 Print Assumptions each_ad_reported_once_mixed_refuted.
+
+(* ---- composition with C01, the model that owns the walk ----
+   C08 treats a session's walk abstractly: heads are chain positions (1 = oldest), a session
+   with head h and stop s reports h, h-1, .., s+1.  For a chain ch of C01 (newest block
+   first, no block twice; positions <-> CIDs by cid_of / cids / stop_of of Compose_C04_C01):
+   covered configurations = no depth limit of any kind (c08_cfg: AdsDepthLimit 0,
+   FirstSyncDepth 0, no scoped depth), strict selector, prescribed hook, no explicit stop, no
+   resync, no WithLastKnownSync; EVERY segment size segdl; every local store from which the
+   segment can be had. *)
+Module X := Model.Compose_C08_C01.
+Module Y := Model.Compose_C04_C01.
+Module K1 := Model.C01_ChainSync.
+Module XP := Proofs.Compose_C08_C01.
+
+(* the hook log of one session, as blocks, is C01's specified segment for (head, stop, no
+   depth limit); it is what handler.handle reports for every segment size and what C01's whole
+   SyncAdChain hands the hook when the latest sync is the session's stop *)
+Theorem session_reports_c01_segment :
+  forall cap s t th extra ch pub store segdl explicit,
+  reach fixed cap s -> threads s t = Some th -> t_ok th = true -> t_todo th = [] ->
+  K1.chain_wf K1.EPrev extra ch = true -> Y.in_range ch (t_msg th) -> t_stop th <= List.length ch ->
+  let head := Y.cid_of ch (t_msg th) in
+  let stop := Y.stop_of ch (t_stop th) in
+  let sg := K1.segment ch head stop None in
+  K1.avail pub (Y.cids ch store) sg = true ->
+  Y.cids ch (X.session_log s t) = sg /\
+  K1.handle (K1.chain_world K1.EPrev extra ch pub) K1.VPrev stop None segdl K1.HNominate head (Y.cids ch store) =
+    K1.HO sg (K1.missing (Y.cids ch store) sg) (rev (K1.missing (Y.cids ch store) sg) ++ Y.cids ch store) (List.length sg) None /\
+  K1.r_hooks (K1.sync_ad_chain (K1.chain_world K1.EPrev extra ch pub) (X.c08_cfg segdl)
+                  (X.c08_call explicit head) (K1.ST stop (Y.cids ch store))) = Y.cids ch (X.session_log s t).
+Proof. exact XP.session_reports_c01_segment_l. Qed.
+Print Assumptions session_reports_c01_segment.
+
+(* while the session is running: reported ++ still owed = the segment *)
+Theorem session_progress_c01 :
+  forall cap s t th extra ch,
+  reach fixed cap s -> threads s t = Some th -> t_ok th = true ->
+  K1.chain_wf K1.EPrev extra ch = true -> Y.in_range ch (t_msg th) -> t_stop th <= List.length ch ->
+  Y.cids ch (X.session_log s t ++ t_todo th) =
+  K1.segment ch (Y.cid_of ch (t_msg th)) (Y.stop_of ch (t_stop th)) None.
+Proof. exact XP.session_progress_c01_l. Qed.
+Print Assumptions session_progress_c01.
+
+(* the stop a session works with is what C01's go_stop / stop_table yields for the latest
+   sync at that moment *)
+Theorem session_stop_is_c01_stop :
+  forall cap s t th ch segdl explicit head store,
+  reach fixed cap s -> threads s t = Some th -> stop_ok (t_pc th) = true ->
+  let st := K1.ST (Y.stop_of ch (latest s (t_pub th))) store in
+  Y.stop_of ch (t_stop th) = K1.go_stop (X.c08_cfg segdl) st (X.c08_call explicit head) /\
+  Y.stop_of ch (t_stop th) =
+    K1.stop_table (K1.eff_latest (X.c08_cfg segdl) st) (K1.a_stop (X.c08_call explicit head))
+                    (K1.a_resync (X.c08_call explicit head)).
+Proof. exact XP.session_stop_is_c01_stop_l. Qed.
+Print Assumptions session_stop_is_c01_stop.
+
+(* "every advertisement in between was reported exactly once", about the blocks C01 says
+   are reported: at quiescence the publisher's hook log, as blocks, has no repetition and is
+   (as a set: the sessions report oldest segments first, each newest-first) exactly the chain
+   from the latest sync down -- `from latest ch`, not cut since the initial latest sync is
+   none -- provided no sync was handed a stop beyond its head; announce-only histories in
+   chain order never are (second theorem: C01's segment with no stop and no limit) *)
+Theorem each_ad_reported_once_c01 :
+  forall cap s p extra ch,
+  reach fixed cap s -> quiescent s -> regress s = false ->
+  K1.chain_wf K1.EPrev extra ch = true -> latest s p <= List.length ch ->
+  (latest s p = 0 -> X.publisher_log s p = []) /\
+  (latest s p <> 0 ->
+     Permutation (Y.cids ch (X.publisher_log s p)) (K1.from (Y.cid_of ch (latest s p)) ch) /\
+     K1.take_until None (K1.from (Y.cid_of ch (latest s p)) ch) = K1.from (Y.cid_of ch (latest s p)) ch /\
+     NoDup (Y.cids ch (X.publisher_log s p))).
+Proof. exact XP.each_ad_reported_once_c01_l. Qed.
+Print Assumptions each_ad_reported_once_c01.
+
+Theorem each_ad_reported_once_c01_announce_only :
+  forall cap s p extra ch,
+  reach fixed cap s -> quiescent s -> nexp s = false -> ordered s = true ->
+  K1.chain_wf K1.EPrev extra ch = true -> latest s p <= List.length ch -> latest s p <> 0 ->
+  Permutation (Y.cids ch (X.publisher_log s p))
+              (K1.segment ch (Y.cid_of ch (latest s p)) None None) /\
+  NoDup (Y.cids ch (X.publisher_log s p)).
+Proof. exact XP.each_ad_reported_once_c01_announce_only_l. Qed.
+Print Assumptions each_ad_reported_once_c01_announce_only.
+
+(* every call in a publisher's log is a call of one of its sessions *)
+Theorem publisher_log_is_made_of_sessions :
+  forall cap s p x,
+  reach fixed cap s -> In x (hooks s) -> snd (fst x) = p ->
+  exists th, threads s (fst (fst x)) = Some th /\ t_pub th = p /\
+             In (snd x) (X.session_log s (fst (fst x))).
+Proof. exact XP.publisher_log_is_made_of_sessions_l. Qed.
+Print Assumptions publisher_log_is_made_of_sessions.
